@@ -93,8 +93,16 @@ RULES = [
     ('R4b', 'a |= b; -> a.or_assign_(b);', re.compile(r'(?m)^([ \t]*)(\w+) \|= (&?[A-Za-z_]\w*);'), r'\1\2.or_assign_(\3);'),
     ('R4c', '&a | &b -> bitor_(&a, &b)', re.compile(r'&(\w+) \| &(\w+)'), r'bitor_(&\1, &\2)'),
     ('R4d', '&a & &b -> bitand_(&a, &b)', re.compile(r'&(\w+) & &(\w+)'), r'bitand_(&\1, &\2)'),
+    ('R7e', '(m as f64 * 2.0 / 3.0).floor() as usize -> two_thirds_(m) (floating point: an uninterpreted usize)',
+     re.compile(r'\(\s*(\w+) as f64 \* 2\.0 / 3\.0\)\.floor\(\) as usize'), r'two_thirds_(\1)'),
     ('R12', 'ghost-state threading for the id generator: X.concurrent_node_ids.next() -> X.concurrent_node_ids.next_g_(tmp_nodes) (ids returned before are recorded in the TmpNodes in scope)',
-     re.compile(r'\b(concurrent_node_ids)\s*\.next\(\)'), r'\1.next_g_(tmp_nodes)'),
+     re.compile(r'(\.concurrent_node_ids)\s*\.next\(\)'), r'\1.next_g_(tmp_nodes)'),
+    ('R12b', 'the same where no staging area is in scope: concurrent_node_ids.next() -> concurrent_node_ids.next_v_(wtxn) (the id is stated fresh for the CURRENT view of the transaction in scope)',
+     re.compile(r'(?<![.\w])(concurrent_node_ids)\s*\.next\(\)'), r'\1.next_v_(wtxn)'),
+    ('R14a', 'TmpNodes::new() -> TmpNodes::new_g_(wtxn): the staging area records (ghost) the view it was created under, so that ids it is handed later can be stated absent from it',
+     re.compile(r'\bTmpNodes::new\(\)'), 'TmpNodes::new_g_(wtxn)'),
+    ('R14b', 'TmpNodes::new_in(p) -> TmpNodes::new_in_g_(p, wtxn)',
+     re.compile(r'\bTmpNodes::new_in\((\w+)\)'), r'TmpNodes::new_in_g_(\1, wtxn)'),
     # R10: one stand-in error type: conversions between error types are identities
     ('R10a', 'Err(e.into()) -> Err(e)', re.compile(r'\bErr\((\w+)\.into\(\)\)'), r'Err(\1)'),
     ('R10b', '.map_err(Into::into) / .map_err(Error::from) dropped', re.compile(r'\s*\.map_err\((?:Into::into|Error::from|heed::Error::from)\)'), ''),
@@ -122,7 +130,8 @@ def rule_r9(text):
 
 
 R6B_DESC = ('R6b', 'for PAT in EXPR { .. } over a non-range iterator -> let mut iter__N = EXPR; while let Some(PAT) = iter__N.next() { .. } '
-            '(Rust\'s definition of `for`; integer ranges `a..b` are left to Verus)')
+            '(Rust\'s definition of `for`; integer ranges `a..b` are left to Verus); '
+            '`for PAT in vec.iter()` over a plain identifier -> index loop `let PAT = &vec[idx__N]` (R6h)')
 
 
 def rule_r6b(text):
@@ -148,6 +157,18 @@ def rule_r6b(text):
                 continue  # integer range
             if expr.startswith('iter__') or re.match(r'^&(mut )?\w+$', expr):
                 continue  # a borrowed plain collection: left to Verus
+            mv = re.match(r'^(\w+)\.iter\(\)$', expr)
+            if mv:
+                # R6h: `for PAT in vec.iter()` -> index loop with `let PAT = &vec[idx];`
+                ls = out.rfind('\n', 0, m.start()) + 1
+                indent = re.match(r'[ \t]*', out[ls:]).group(0)
+                v = mv.group(1)
+                new = ('let mut idx__%d: usize = 0;\n%swhile idx__%d < %s.len() ' % (n, indent, n, v))
+                body_ins = '\n%s    let %s = &%s[idx__%d];\n%s    idx__%d += 1;' % (indent, pat, v, n, indent, n)
+                out = out[:m.start()] + new + '{' + body_ins + out[ob + 1:]
+                n += 1
+                found = 'restart'
+                break
             if re.match(r'^\w+$', expr):
                 # `for x in coll` (Vec<u32> by value or &RoaringBitmap: ascending ids) -> index loop over the prelude trait IdxIter
                 ls = out.rfind('\n', 0, m.start()) + 1
